@@ -135,13 +135,18 @@ func c02(tier string) []*explore.Scenario {
 	if tier == "thorough" {
 		out = append(out, c02One([]streamCase{{"Bidi", "pingpong", "echo", 1, 0, 0}, {"Bidi", "pingpong", "echo", 1, 0, 0}, {"Bidi", "pingpong", "echo", 1, 0, 0}}, 64, 1))
 		// long streams and many streams under the default schedule and one deviation
-		out = append(out, c02One([]streamCase{{"Bidi", "pingpong", "echo", 200, 0, 0}}, 64, 0))
-		out = append(out, c02One([]streamCase{{"Bidi", "sendall", "echo", 40, 0, 0}}, 64, 1))
+		long := c02One([]streamCase{{"Bidi", "pingpong", "echo", 200, 0, 0}}, 64, 0)
+		long.SelectCost = true
+		long2 := c02One([]streamCase{{"Bidi", "sendall", "echo", 40, 0, 0}}, 64, 1)
+		long2.SelectCost = true
+		out = append(out, long, long2)
 		var many []streamCase
 		for i := 0; i < 32; i++ {
 			many = append(many, streamCase{"Bidi", "pingpong", "echo", 1, 0, 0})
 		}
-		out = append(out, c02One(many, 64, 0))
+		m := c02One(many, 64, 0)
+		m.SelectCost = true
+		out = append(out, m)
 	}
 	return out
 }
